@@ -232,8 +232,17 @@ func keySort(arr Sort) Sort {
 func Select(a, i Term) Term   { return mk(elemSort(a.Sort), "select", a, i) }
 func Store(a, i, v Term) Term { return mk(a.Sort, "store", a, i, v) }
 func ConstArr(s Sort, v Term) Term {
-	return Term{"((as const " + string(s) + ") " + v.S + ")", s}
+	if v.S == "0" || v.S == "false" || v.S == "true" {
+		return Term{"((as const " + string(s) + ") " + v.S + ")", s}
+	}
+	// cvc5 only accepts values in constant arrays: use a named all-zero array with an axiom
+	n := "zarr_" + sanitize(string(s))
+	zeroArrs[n] = [2]string{string(s), v.S}
+	return Term{n, s}
 }
+
+// zeroArrs: name -> (array sort, element term); declared in the prelude.
+var zeroArrs = map[string][2]string{}
 
 func SliceMk(base, off, ln, cp Term) Term { return mk(SSlice, "mk-slice", base, off, ln, cp) }
 func SBase(s Term) Term                   { return mk(SInt, "sbase", s) }
@@ -414,7 +423,7 @@ func (u *Universe) structSort(named *types.Named, st *types.Struct) Sort {
 	for i := 0; i < st.NumFields(); i++ {
 		f := st.Field(i)
 		fs := u.SortOf(f.Type())
-		si.fields = append(si.fields, fieldInfo{name: f.Name(), acc: "f_" + key + "_" + sanitize(f.Name()), sort: fs, typ: f.Type()})
+		si.fields = append(si.fields, fieldInfo{name: f.Name(), acc: fmt.Sprintf("f_%s_%s", key, fieldAccName(st, i)), sort: fs, typ: f.Type()})
 	}
 	for _, g := range u.ghostFlds[key] {
 		si.fields = append(si.fields, fieldInfo{name: "#" + g.name, acc: "g_" + key + "_" + sanitize(g.name), sort: g.sort, ghost: true})
@@ -537,7 +546,7 @@ func (u *Universe) Prelude() string {
 	b.WriteString("(declare-sort Str 0)\n")
 	b.WriteString("(declare-fun strlen (Str) Int)\n(declare-fun strat (Str Int) Int)\n(declare-const str_empty Str)\n")
 	b.WriteString("(assert (= (strlen str_empty) 0))\n")
-	b.WriteString("(assert (forall ((s Str)) (! (>= (strlen s) 0) :pattern ((strlen s)))))\n")
+	b.WriteString("(assert (forall ((s Str)) (! (and (>= (strlen s) 0) (<= (strlen s) 1152921504606846976)) :pattern ((strlen s)))))\n")
 	b.WriteString("(assert (forall ((s Str)) (! (=> (= (strlen s) 0) (= s str_empty)) :pattern ((strlen s)))))\n")
 	b.WriteString("(assert (forall ((s Str) (i Int)) (! (and (<= 0 (strat s i)) (< (strat s i) 256)) :pattern ((strat s i)))))\n")
 	// string equality is extensional
@@ -566,6 +575,15 @@ func (u *Universe) Prelude() string {
 			fmt.Fprintf(&b, " (%s %s)", f.acc, f.sort)
 		}
 		b.WriteString("))))\n")
+	}
+	zn := make([]string, 0, len(zeroArrs))
+	for n := range zeroArrs {
+		zn = append(zn, n)
+	}
+	sort.Strings(zn)
+	for _, n := range zn {
+		za := zeroArrs[n]
+		fmt.Fprintf(&b, "(declare-const %s %s)\n(assert (forall ((k %s)) (! (= (select %s k) %s) :pattern ((select %s k)))))\n", n, za[0], keySort(Sort(za[0])), n, za[1], n)
 	}
 	for i, s := range u.strOrder {
 		n := u.strLits[s]
@@ -596,3 +614,12 @@ func (u *Universe) Prelude() string {
 }
 
 func (u *Universe) declaredSpecSort(s string) bool { return false }
+
+// fieldAccName: field name, made unique for blank fields.
+func fieldAccName(st *types.Struct, i int) string {
+	n := st.Field(i).Name()
+	if n == "_" {
+		return fmt.Sprintf("blank%d", i)
+	}
+	return sanitize(n)
+}
